@@ -12,30 +12,36 @@ CONSTANTS K, KO, W,
           ValSet    \* "plain" | "ext" | "marker": which value list goes with the schemas
 
 VARIABLES s, own, wraps,
-          share     \* TRUE: every repeated sub-schema of s is to be realised as a $ref to ONE shared component
-vars == <<s, own, wraps, share>>
+          share,    \* TRUE: every repeated sub-schema of s is to be realised as a $ref to ONE shared component
+          io        \* number of keywords the innermost level had when it was wrapped (0 while wraps = 0)
+vars == <<s, own, wraps, share, io>>
 
-Init == s = Empty /\ own = 0 /\ wraps = 0 /\ share = FALSE
+Init == s = Empty /\ own = 0 /\ wraps = 0 /\ share = FALSE /\ io = 0
 
 AddKw == \E a \in (IF wraps = 0 THEN (IF Ext THEN Atoms \cup ExtAtoms ELSE Atoms) ELSE OuterAtoms) :
             /\ own < (IF wraps = 0 THEN K ELSE KO)
             /\ CanAdd(s, a)
             /\ (wraps = 0 => ScopeOK(s, a))
-            /\ s' = With(s, a) /\ own' = own + 1 /\ UNCHANGED <<wraps, share>>
+            /\ s' = With(s, a) /\ own' = own + 1 /\ UNCHANGED <<wraps, share, io>>
 
 Wrap == /\ wraps < W
         /\ \E w \in Wrappers(s) \cup (IF Ext THEN KeyWrappers(s) ELSE {}) : s' = w
-        /\ own' = 0 /\ wraps' = wraps + 1 /\ UNCHANGED share
+        /\ own' = 0 /\ wraps' = wraps + 1 /\ io' = own /\ UNCHANGED share
 
 WrapShared == /\ wraps < W /\ own <= SK /\ wraps = 0
               /\ \E w \in ShareWrappers(s) : s' = w
               /\ share' \in BOOLEAN
+              /\ io' = 0      \* (never part of the bulk)
               /\ own' = KO /\ wraps' = wraps + 1      \* no outer keywords next to a sharing wrapper (they multiply the thorough tier by |OuterAtoms|)
 
 Next == AddKw \/ Wrap \/ WrapShared
 Spec == Init /\ [][Next]_vars
 
-Emit == CSVWrite("%1$s", <<ToJson(IF share THEN [s |-> s, share |-> TRUE] ELSE [s |-> s])>>, "cases.ndjson")
+(* bulk: a wrapped schema whose innermost level has K >= 2 keywords -- by far the largest part of the universe.  The  *)
+(* thorough tiers of C12 / C19 drive a seeded half of the bulk (the pipeline selects by line parity + seed) and all *)
+(* the rest; quick and C01 drive everything.                                                                        *)
+Bulk == wraps > 0 /\ io >= 2
+Emit == CSVWrite("%1$s", <<ToJson(IF share THEN [s |-> s, share |-> TRUE] ELSE IF Bulk THEN [s |-> s, bulk |-> TRUE] ELSE [s |-> s])>>, "cases.ndjson")
 
 (* emit the value list once (line i = Vals[i]) *)
 TheVals == CASE ValSet = "plain" -> Vals [] ValSet = "ext" -> Vals \o VX [] ValSet = "marker" -> MVals
